@@ -7,104 +7,115 @@ import LassoModel.Source
 namespace Lasso.Wrap
 open Lasso.Source
 
-/-- Route layers as written in the protocol -> wrapper name in the forwarding table. -/
-def layerWrapper : String → Option String
-  | "box" => some "Box"
-  | "boxdyn" => some "Box"        -- `Box<dyn Trait>`: the Box impl, then the base type's impl through the vtable
-  | "mut" => some "&mut"
-  | "ref" => some "&"
-  | "tref" => some "&ThreadedRodeo"
+/-- Route layers as written in the protocol. `boxdyn` (`Box<dyn Trait>`) is the `Box` impl followed
+by the base type's impl through the vtable. -/
+def layerOfToken : String → Option Wrapper
+  | "box" => some .box
+  | "boxdyn" => some .box
+  | "mut" => some .refMut
+  | "ref" => some .ref
+  | "tref" => some .threadedRef
+  | "Rodeo" => some .rodeo
+  | "ThreadedRodeo" => some .threaded
+  | "RodeoReader" => some .reader
+  | "RodeoResolver" => some .resolver
   | _ => none
 
 /-- Protocol operation -> trait method. -/
-def opToMethod : String → Option String
-  | "intern" => some "try_get_or_intern"
-  | "internP" => some "get_or_intern"
-  | "internS" => some "try_get_or_intern_static"
-  | "internSP" => some "get_or_intern_static"
-  | "get" => some "get"
-  | "contains" => some "contains"
-  | "resolve" => some "resolve"
-  | "tryResolve" => some "try_resolve"
-  | "resolveU" => some "resolve_unchecked"
-  | "containsKey" => some "contains_key"
-  | "len" => some "len"
-  | "isEmpty" => some "is_empty"
-  | "intoReader" => some "into_reader"
-  | "intoResolver" => some "into_resolver"
+def opToMethod : String → Option Method
+  | "intern" => some .tryGetOrIntern
+  | "internP" => some .getOrIntern
+  | "internS" => some .tryGetOrInternStatic
+  | "internSP" => some .getOrInternStatic
+  | "get" => some .get
+  | "contains" => some .contains
+  | "resolve" => some .resolve
+  | "tryResolve" => some .tryResolve
+  | "resolveU" => some .resolveUnchecked
+  | "containsKey" => some .containsKey
+  | "len" => some .len
+  | "isEmpty" => some .isEmpty
+  | "intoReader" => some .intoReader
+  | "intoResolver" => some .intoResolver
   | _ => none
 
 /-- Inherent method -> protocol operation. -/
-def methodToOp : String → Option String
-  | "try_get_or_intern" => some "intern"
-  | "get_or_intern" => some "internP"
-  | "try_get_or_intern_static" => some "internS"
-  | "get_or_intern_static" => some "internSP"
-  | "get" => some "get"
-  | "contains" => some "contains"
-  | "resolve" => some "resolve"
-  | "try_resolve" => some "tryResolve"
-  | "resolve_unchecked" => some "resolveU"
-  | "contains_key" => some "containsKey"
-  | "len" => some "len"
-  | "is_empty" => some "isEmpty"
-  | "into_reader" => some "intoReader"
-  | "into_resolver" => some "intoResolver"
+def methodToOp : Method → Option String
+  | .tryGetOrIntern => some "intern"
+  | .getOrIntern => some "internP"
+  | .tryGetOrInternStatic => some "internS"
+  | .getOrInternStatic => some "internSP"
+  | .get => some "get"
+  | .contains => some "contains"
+  | .resolve => some "resolve"
+  | .tryResolve => some "tryResolve"
+  | .resolveUnchecked => some "resolveU"
+  | .containsKey => some "containsKey"
+  | .len => some "len"
+  | .isEmpty => some "isEmpty"
+  | .intoReader => some "intoReader"
+  | .intoResolver => some "intoResolver"
   | _ => none
 
-def find (fw : List Forward) (wrapper method : String) : Option Forward :=
+def find (fw : List Forward) (wrapper : Wrapper) (method : Method) : Option Forward :=
   fw.find? (fun f => f.wrapper == wrapper && f.method == method)
+
+def isBase : Wrapper → Bool
+  | .rodeo | .threaded | .reader | .resolver => true
+  | _ => false
 
 /-- Follow method `m` through the layers (outermost first, the base type last); the result is the
 inherent method of the base type that ends up being called, or `none` when some layer does not
 forward in a recognised way. -/
-def resolve (fw : List Forward) : List String → String → Option String
+def resolve (fw : List Forward) : List Wrapper → Method → Option Method
   | [], _ => none
   | [base], m =>
+    if !isBase base then none else
     match find fw base m with
     | some f =>
       -- inherent methods take priority over trait methods in method resolution, so `self.m(..)`,
       -- `(*self).m(..)` and `Base::m(..)` on the base type all name the inherent method
-      if f.calleeKind == "self" || f.calleeKind == "deref1" || f.calleeKind == "inherent-ufcs:" ++ base
+      if f.calleeKind == .self_ || f.calleeKind == .deref1 || f.calleeKind == .inherentUfcs base
       then some f.callee else none
     | none => none
   | layer :: rest, m =>
-    match layerWrapper layer with
+    if isBase layer then none else
+    match find fw layer m with
     | none => none
-    | some w =>
-      match find fw w m with
-      | none => none
-      | some f =>
-        if f.calleeKind == "deref" || f.calleeKind == "ufcs-trait" then resolve fw rest f.callee
-        else if f.calleeKind.startsWith "inherent-ufcs:" then
-          (if rest == [(f.calleeKind.drop 14).toString] then some f.callee else none)
-        else none
+    | some f =>
+      match f.calleeKind with
+      | .deref => resolve fw rest f.callee
+      | .ufcsTrait => resolve fw rest f.callee
+      | .inherentUfcs w => if rest == [w] then some f.callee else none
+      | _ => none
 
 /-- `is_empty` is a provided method (`self.len() == 0`) that no impl overrides: it is whatever `len`
 resolves to, compared with 0. -/
-def resolveMethod (fw : List Forward) (layers : List String) (m : String) : Option String :=
+def resolveMethod (fw : List Forward) (layers : List Wrapper) (m : Method) : Option Method :=
   match resolve fw layers m with
   | some r => some r
   | none =>
-    if m == "is_empty" then
-      match resolve fw layers "len" with
-      | some "len" => some "is_empty"
+    if m == .isEmpty then
+      match resolve fw layers .len with
+      | some .len => some .isEmpty
       | _ => none
     else none
+
+def parseRoute (route : String) : Option (List Wrapper) := (route.splitOn "+").mapM layerOfToken
 
 /-- `via <route> <op> <args…>` -> the inherent operation it denotes. -/
 def resolveVia (fw : List Forward) (route : String) (toks : List String) : Option (List String) :=
   match toks with
   | [] => none
   | op :: args =>
-    match opToMethod op with
-    | none => none
-    | some m =>
-      match resolveMethod fw (route.splitOn "+") m with
+    match opToMethod op, parseRoute route with
+    | some m, some layers =>
+      match resolveMethod fw layers m with
       | none => none
       | some inh =>
         match methodToOp inh with
         | some op' => some (op' :: args)
         | none => none
+    | _, _ => none
 
 end Lasso.Wrap
